@@ -2,6 +2,8 @@
 # tools/seedtest.sh <prop> <dir with patch.diff demo.py> [repo dir]: confirm a seeded change (tests unchanged, demo flips)
 # and run the check against it in the scratch worktree /work/mut/repo (never in /repo)
 P=$1; D=$2; R=${3:-/work/mut/repo}
+# the default scratch worktree is created on demand (and can be removed with `git -C /repo worktree remove --force /work/mut/repo`)
+[ -d "$R" ] || { mkdir -p $(dirname $R); git -C /repo worktree add -q --detach $R && cp /repo/molli_xt*.so $R/; }
 [ "$R" = /work/mut/repo ] && git -C $R checkout -q --detach $(git -C /repo rev-parse HEAD) 2>/dev/null   # a work-package worktree keeps its own branch (it may hold fix: commits)
 git -C $R checkout -q -- .
 export MOLLI_HOME=$(mktemp -d)
